@@ -138,3 +138,62 @@ Proof.
     destruct (syncer_run_obs ord gs s1 steps) as [[s2 os]|] eqn:E; [|discriminate].
     apply some_inj, pair_inj in H. destruct H as [<- <-]. rewrite (IH _ _ _ E). reflexivity.
 Qed.
+
+Section R2.
+  Variable ord : rmap -> rmap.
+  Hypothesis Ho : ord_ok ord.
+
+  (* MaxErrorsPerRevision: the fifth consecutive generic failure to CREATE a watch makes the cache List again - at the
+     cached (non-zero) revision; the fifth consecutive generic watch ERROR EVENT clears the revision: List from "0" *)
+  Lemma fifth_watch_create_error_relists g c t c' rs :
+    ph c = PWatch -> errs c = 4 -> cache_step ord g c t (RWatchErr WOther) = Some (c', rs) -> req_of c' = (PList, rev c).
+  Proof.
+    unfold cache_step. cbv zeta. destruct c as [res0 rev0 errs0 pfr0 ph0 st0 crd0 lp0 wp0 conn0 stale0]. cbn.
+    intros -> ->. cbn. intros H. apply some_inj in H. unfold loop_top in H. cbn in H.
+    destruct (crd0 && negb (lp0 || wp0)); cbn in H; [unfold send_status in H; cbn in H; destruct (st_eqb _ st0); cbn in H|];
+      apply pair_inj in H; destruct H as [<- _]; reflexivity.
+  Qed.
+  Lemma fifth_watch_error_event_resyncs g c t c' rs :
+    ph c = PEvents -> errs c = 4 -> cache_step ord g c t (REvent EvErrOther) = Some (c', rs) -> req_of c' = (PList, 0%N).
+  Proof.
+    unfold cache_step. cbv zeta. destruct c as [res0 rev0 errs0 pfr0 ph0 st0 crd0 lp0 wp0 conn0 stale0]. cbn.
+    intros -> ->. cbn. intros H. apply some_inj in H. unfold reenter, loop_top in H. cbn in H.
+    destruct (crd0 && negb (lp0 || wp0)); cbn in H; [unfold send_status in H; cbn in H; destruct (st_eqb _ st0); cbn in H|];
+      apply pair_inj in H; destruct H as [<- _]; reflexivity.
+  Qed.
+  (* fewer than that: the watch is simply re-created from the same revision *)
+  Lemma early_watch_error_event_rewatches g c t c' rs :
+    ph c = PEvents -> errs c < 4 -> N.eqb (rev c) 0 = false ->
+    cache_step ord g c t (REvent EvErrOther) = Some (c', rs) -> req_of c' = (PWatch, rev c) /\ rs = [].
+  Proof.
+    unfold cache_step. cbv zeta. destruct c as [res0 rev0 errs0 pfr0 ph0 st0 crd0 lp0 wp0 conn0 stale0]. cbn.
+    intros -> He Hr. destruct errs0 as [|[|[|[|n]]]]; try lia; cbn; unfold reenter, loop_top; cbn; rewrite Hr; cbn;
+      intros H; apply some_inj, pair_inj in H; destruct H as [<- <-]; auto.
+  Qed.
+
+  (* a List that fails after the retry timeout: the error is signalled, the cache goes back to WaitForDatastore, and a
+     SendDeletesOnConnFail type forgets (and has deleted) everything and will List from "0" *)
+  Lemma list_failure_after_timeout g c t c' rs :
+    ph c = PList -> pfr c = true -> stale c || t = true ->
+    cache_step ord g c t (RListErr LOther) = Some (c', rs) ->
+    In ResBackendErr rs /\ status c' = Wait /\ req_of c' = (PList, if sd g then 0%N else rev c) /\ (sd g = true -> res c' = []).
+  Proof.
+    unfold cache_step. cbv zeta. destruct c as [res0 rev0 errs0 pfr0 ph0 st0 crd0 lp0 wp0 conn0 stale0]. cbn.
+    intros -> -> Hs. unfold step_list. cbn [stale set_crd set_stale]. rewrite Hs. cbn [sd].
+    destruct (sd g).
+    - match goal with |- context [send_deletions ord ?a] => destruct (send_deletions ord a) as [cD oD] eqn:ED end.
+      apply (send_deletions_spec ord Ho) in ED. cbn in ED. destruct ED as (D1 & D2 & D3 & D4 & D5 & D6 & D7 & D8 & D9 & _).
+      unfold seq2. destruct (loop_top cD) as [cL oL] eqn:EL.
+      pose proof (loop_top_req _ _ _ EL) as (L1 & L2 & L3). pose proof (loop_top_spec _ _ _ EL) as (Lr & _ & _ & _ & _ & _ & _ & _ & Lw).
+      intros H. apply some_inj, pair_inj in H. destruct H as [<- <-].
+      assert (Hpl : ph cL = PList) by (apply L3; rewrite D2; reflexivity).
+      split; [left; reflexivity|]. split; [apply Lw; auto; rewrite D4; reflexivity|].
+      split; [unfold req_of; rewrite Hpl, L1, D2; reflexivity|]. intros _. rewrite Lr. exact D1.
+    - unfold seq2. match goal with |- context [loop_top ?a] => destruct (loop_top a) as [cL oL] eqn:EL end.
+      pose proof (loop_top_req _ _ _ EL) as (L1 & L2 & L3). pose proof (loop_top_spec _ _ _ EL) as (Lr & _ & _ & _ & _ & Lp & Lq & _ & Lw).
+      cbn in *. intros H. apply some_inj, pair_inj in H. destruct H as [<- <-].
+      assert (Hpl : ph cL = PList).
+      { destruct L2 as [L2|[L2 _]]; [exact L2|]. exfalso. assert (Hn : ph cL <> PList) by congruence. destruct (Lq Hn) as (_ & Hf & _). discriminate. }
+      split; [left; reflexivity|]. split; [apply Lw; auto|]. split; [unfold req_of; rewrite Hpl, L1; reflexivity|discriminate].
+  Qed.
+End R2.
